@@ -4,6 +4,7 @@
 import BorshModel.Io
 import BorshModel.Lemmas.Trace
 import BorshModel.Canon
+import BorshModel.Lemmas.ScriptWrite
 namespace Borsh
 
 /-- the length-only writer: the running count plus the bytes of the chunks, with the
@@ -80,6 +81,37 @@ theorem C12_fixed_buffer (cap : Nat) (t : Ty) (v : Val) :
   unfold toFixedBuffer
   rw [runTraceFixed_eq]
   simp [Tr.bytes, eWriteZero]
+
+/-- **Writer independence.** However the writer splits writes (any chunk pattern, down to one
+byte at a time) and wherever transient `Interrupted` results occur, a writer that does not stop
+inside the encoding receives exactly the bytes of the encoding, in order, and the result is the
+serializer's own status. -/
+theorem C12_delivers_encoding (sc : Script) (intr : List (Nat × Nat)) (t : Ty) (v : Val)
+    (hkind : ∀ k kd id, sc.stop = some (k, .fail kd id) → kd ≠ .interrupted)
+    (hstop : ∀ k st, sc.stop = some (k, st) → (ser t v).bytes.length ≤ k) :
+    ∃ w', toWriterScript sc intr t v = (w', (ser t v).status) ∧ w'.delivered = (ser t v).bytes := by
+  unfold toWriterScript
+  obtain ⟨w', h1, h2⟩ := runTrace_complete sc hkind (ser t v).chunks (ser t v).status ⟨[], intr⟩
+    (by intro k st hs; right; simpa [Tr.bytes] using hstop k st hs)
+  exact ⟨w', h1, by simpa [Tr.bytes] using h2⟩
+
+/-- **Transparency to failures.** If the writer fails (any kind and message) or reports
+`Ok(0)` after `k` bytes, `k` inside the encoding, serialization returns exactly that error —
+kind and message unchanged, `WriteZero` for `Ok(0)` — and the bytes delivered so far are the
+first `k` bytes of the encoding. -/
+theorem C12_prefix_on_failure (sc : Script) (intr : List (Nat × Nat)) (t : Ty) (v : Val) (k : Nat) (st : Stop)
+    (hkind : ∀ k kd id, sc.stop = some (k, .fail kd id) → kd ≠ .interrupted)
+    (hs : sc.stop = some (k, st)) (hk : k < (ser t v).bytes.length) :
+    ∃ w', toWriterScript sc intr t v = (w', .err (stopErr st)) ∧
+      w'.delivered = (ser t v).bytes.take k := by
+  unfold toWriterScript
+  obtain ⟨w', h1, h2⟩ := runTrace_stopped sc hkind k st hs (ser t v).chunks (ser t v).status ⟨[], intr⟩
+    (by simp) (by simpa [Tr.bytes] using hk)
+  exact ⟨w', h1, by simpa [Tr.bytes] using h2⟩
+
+/-- the error is the writer's own: kind and payload of a hard failure, `WriteZero` for `Ok(0)` -/
+theorem C12_error_unchanged (kd : Kind) (id : Nat) :
+    stopErr (.fail kd id) = ⟨kd, .user id⟩ ∧ stopErr .zero = ⟨.writeZero, .writeZeroMsg⟩ := ⟨rfl, rfl⟩
 
 /-- non-vacuity: every capacity 0..len+1 for a small value -/
 example :
